@@ -10,6 +10,8 @@ import (
 	"strings"
 	"time"
 
+	coraza "github.com/corazawaf/coraza/v3"
+	"github.com/corazawaf/coraza/v3/debuglog"
 	"github.com/corazawaf/coraza/v3/verifharness/vf"
 )
 
@@ -21,7 +23,7 @@ func memoConcCfg(builders, prekeys string) string {
 
 // C06: a WAF is safe to share: concurrent transactions are race-free and independent.
 func C06(run *vf.Run) {
-	run.Rule = "MemoConc.tla (PlusCal): the Do / Release protocol of the process-wide pattern cache with one label per critical section of internal/memoize/sync.go (lock-free fast path, entry mutex, singleflight leader / followers, post-registration, Release marking and deleting); TLC explores every interleaving of 2 (thorough: 3) builders asking for 2 keys while a closer releases the WAF that owns the pre-cached entries, checking deadlock freedom, NoDeletedInCache, DoReturnsOwnKey, ValueEntryOwnedOrGone, NoLeak. The real library is then stressed under the Go race detector (-race -tags verif): G goroutines run generated transactions on one shared WAF (rx / pm / chains / ctl run-time exclusions / setvar / capture / shared serial audit log) while B goroutines build, probe and close WAFs sharing cached patterns, with runtime.Gosched injected at the verif yield points of memoize.Do / Release; every transaction's outcome is compared with the same request run alone, the quiescent cache is checked against the model's invariants, the audit log must hold one JSON document per transaction. Non-trivial = a concurrently executed transaction"
+	run.Rule = "MemoConc.tla (PlusCal): the Do / Release protocol of the process-wide pattern cache with one label per critical section of internal/memoize/sync.go (lock-free fast path, entry mutex, singleflight leader / followers, post-registration, Release marking and deleting); TLC explores every interleaving of 2 (thorough: 3) builders asking for 2 keys while a closer releases the WAF that owns the pre-cached entries, checking deadlock freedom, NoDeletedInCache, DoReturnsOwnKey, ValueEntryOwnedOrGone, NoLeak. The real library is then stressed under the Go race detector (-race -tags verif): G goroutines run generated transactions on one shared WAF (rx / pm / chains / ctl run-time exclusions / setvar / capture / shared serial audit log) while B goroutines build, probe and close WAFs sharing cached patterns, with runtime.Gosched injected at the verif yield points of memoize.Do / Release; every transaction's outcome is compared with the same request run alone, the quiescent cache is checked against the model's invariants, the audit log must hold one JSON document per transaction; two transactions in flight derive independent debug loggers from the WAF's logger whatever context it already carries. Non-trivial = a concurrently executed transaction"
 	run.Assume("the Go scheduler is sampled, not enumerated: interleavings inside the stress are those the race detector run produces with yield injection; the memoize protocol itself is explored exhaustively at the grain of its critical sections in TLA+")
 	builders := vf.Pick(run, "{1, 2}", "{1, 2, 3}")
 	for _, pre := range []string{`{"k1"}`, `{"k1", "k2"}`, `{}`} {
@@ -118,6 +120,44 @@ func C06(run *vf.Run) {
 				Replay: map[string]any{"family": "stress", "seed": seed, "summary": sum}})
 		}
 	}
+	c06LoggersIndependent(run)
+}
+
+// c06LoggersIndependent: two transactions in flight on one WAF each derive their debug logger from the
+// WAF's logger (context field tx_id). Whatever context fields the embedder's logger already carries
+// (every encoded length up to 700 bytes is tried), a line logged by the first transaction after the
+// second one was created still carries the first one's id.
+func c06LoggersIndependent(run *vf.Run) {
+	for n := 0; n <= 700; n++ {
+		var buf bytes.Buffer
+		base := debuglog.Default().WithOutput(&buf).WithLevel(debuglog.LevelDebug).With(debuglog.Str("component", strings.Repeat("x", n)))
+		w, err := coraza.NewWAF(coraza.NewWAFConfig().WithDebugLogger(base))
+		if err != nil {
+			run.Inconclusive("NewWAF with a debug logger: %v", err)
+			return
+		}
+		tx1 := w.NewTransactionWithID("AAAA")
+		tx2 := w.NewTransactionWithID("BBBB")
+		buf.Reset()
+		tx1.DebugLogger().Debug().Msg("probe-one")
+		line := buf.String()
+		_ = tx2.Close()
+		_ = tx1.Close()
+		closeAny(w)
+		run.Eval("")
+		if !strings.Contains(line, `tx_id="AAAA"`) || strings.Contains(line, "BBBB") {
+			run.Violate(vf.Violation{Signature: "conc:logger-context-shared", What: fmt.Sprintf("two transactions in flight on one WAF whose debug logger carries %d bytes of context: a line logged by transaction AAAA after transaction BBBB was created reads %q", n+13, strings.TrimSpace(lastN(line, 80))),
+				Replay: map[string]any{"family": "logger", "context_bytes": n}})
+			return
+		}
+	}
+}
+
+func lastN(s string, n int) string {
+	if len(s) > n {
+		return s[len(s)-n:]
+	}
+	return s
 }
 
 func num(v any) float64 {
@@ -139,3 +179,4 @@ func raceSite(s string) string {
 	}
 	return "?"
 }
+func init() { Registry["XLOGGER"] = c06LoggersIndependent } // development entry: the logger sub-check alone
